@@ -24,12 +24,12 @@ TEXT = {'text': 'Kernel-checked, for every hash function (returning >= 4 bytes w
          'sweep over the nine version bytes x two payload lengths showing a displayed base58check text never starts like a built-in HRP); parsing then '
          'displaying returns the lower-case segwit string / the base58check string itself for every accepted string (C06_canonical; via checksum '
          'uniqueness, 5->8->5 regrouping under the padding rules, both letter cases of the character set, encode58(decode58 s) = s); two built-in networks '
-         'never accept the same string (C06_one_network, no residual case); every parsed address outside the known class F5 has a 20-byte hash or a '
+         'never accept the same string (C06_one_network, no residual case); every parsed address has a 20-byte hash or a '
          'version<=16 program of 2..40 bytes (20|32 for v0) with the checksum variant its version requires (C06_parsed_shape); FromStr is parse_with_params '
-         'of one built-in network. F5 is re-derived as C06_blinded_short_program_refuted. Character-for-character agreement of the model encoders with the '
+         'of one built-in network. Finding F5 (blinded v1+ address with a 0/1-byte program) is repaired in 86be616; the model is the repaired from_bech32, its two former witnesses are rejected (C06_F5_witnesses_rejected) and a re-appearance is a VIOLATION. Character-for-character agreement of the model encoders with the '
          "crate's Display and with independent encoders is the per-run correspondence check.",
  'design_ref': 'DESIGN.md section 6, C06',
  'note': 'Trusted: Coq kernel incl. vm_compute; hand-written Gallina model of src/address.rs, src/blech32/decode.rs, bech32 0.11 and base58ck; upstream bech32 '
          'constants by hand; SHA-256d and secp256k1 key validity abstract in theorems; translator regexes; extraction + OCaml driver audited by in-kernel '
-         'vm_compute; Rust harness with independent encoders. Known finding F5 (blinded short program) recorded in known_findings.txt.',
+         'vm_compute; Rust harness with independent encoders. Finding F5 is marked fixed in known_findings.txt.',
  'technique': 'Coq proof over a hand-written model of src/address.rs, src/blech32/decode.rs, bech32 0.11 and base58ck + per-run correspondence'}
